@@ -377,6 +377,12 @@ impl BlockSpec {
         )
     }
 
+    /// A source that emits a finite amount and must then report EOF.
+    pub fn is_finite_source(&self) -> bool {
+        use BlockSpec::*;
+        matches!(self, VectorSourceU8 { .. } | FileSourceU8 { .. } | FileSourceF32 { .. } | FileSourceS24 { .. } | SigMFSourceF32 { .. }) && !self.is_infinite_source()
+    }
+
     /// Number of contiguous samples (per port, max) the block needs in one window.
     pub fn unit(&self) -> usize {
         use BlockSpec::*;
